@@ -48,6 +48,48 @@ type Service struct {
 	Probe func(seq uint64, node, op string)
 	// After, if set, is called when a call has been decided, with its result.
 	After func(seq uint64, node, op, arg, result string)
+
+	hangMu sync.Mutex
+	hang   map[string]chan struct{} // node+"/"+op -> closed when the service answers again
+}
+
+// SetHang makes the service leave calls op of node unanswered (a lease service
+// that accepts the connection and says nothing) until ClearHang; a call gives up
+// only with its own context.
+func (s *Service) SetHang(node, op string) {
+	s.hangMu.Lock()
+	defer s.hangMu.Unlock()
+	if s.hang == nil {
+		s.hang = map[string]chan struct{}{}
+	}
+	if s.hang[node+"/"+op] == nil {
+		s.hang[node+"/"+op] = make(chan struct{})
+	}
+}
+
+func (s *Service) ClearHang(node, op string) {
+	s.hangMu.Lock()
+	defer s.hangMu.Unlock()
+	if ch := s.hang[node+"/"+op]; ch != nil {
+		close(ch)
+		delete(s.hang, node+"/"+op)
+	}
+}
+
+// waitHang blocks while calls op of node are left unanswered.
+func (s *Service) waitHang(ctx context.Context, node, op string) error {
+	s.hangMu.Lock()
+	ch := s.hang[node+"/"+op]
+	s.hangMu.Unlock()
+	if ch == nil {
+		return nil
+	}
+	select {
+	case <-ch:
+		return nil
+	case <-ctx.Done():
+		return ctx.Err()
+	}
 }
 
 func NewService(ttl time.Duration) *Service { return &Service{TTL: ttl} }
@@ -67,6 +109,16 @@ func (s *Service) enter(node, op string) (uint64, error) {
 		}
 	}
 	return seq, nil
+}
+
+// Note lets a front end (the fake Consul) account for a call it answered itself:
+// the call is probed and recorded like any other.
+func (s *Service) Note(node, op, arg, result string) {
+	seq := s.Seq.Add(1)
+	if p := s.Probe; p != nil {
+		p(seq, node, op)
+	}
+	s.record(seq, node, op, arg, result)
 }
 
 func (s *Service) record(seq uint64, node, op, arg, result string) {
@@ -252,6 +304,10 @@ func (l *Lease) TTL() time.Duration { return l.svc.TTL }
 func (l *Lease) Renew(ctx context.Context) error {
 	seq, err := l.svc.enter(l.node, "renew")
 	if err != nil {
+		return err
+	}
+	if err := l.svc.waitHang(ctx, l.node, "renew"); err != nil {
+		l.svc.record(seq, l.node, "renew", l.rec.id, "unanswered:"+err.Error())
 		return err
 	}
 	s := l.svc
